@@ -3,6 +3,7 @@ package props
 import (
 	"encoding/json"
 	"fmt"
+	"math"
 	"sort"
 	"strings"
 
@@ -68,7 +69,8 @@ func GenDoc(x *mc.Exec, withErrors bool) *DocCase {
 	if withErrors {
 		nerr = x.Choose(3, "errors")
 	}
-	prefix := []string{"", "/", "https://x", "https://x/"}[x.Choose(4, "prefix")]
+	prefixes := []string{"", "/", "https://x", "https://x/", "https://x/api//", "file:///"}
+	prefix := prefixes[x.Choose(len(prefixes), "prefix")]
 	sel := x.Choose(3, "selection")
 	rd := x.Choose(2, "reldata")
 
@@ -148,7 +150,7 @@ func GenDoc(x *mc.Exec, withErrors bool) *DocCase {
 	case 1:
 		doc.Meta = j.Meta{}
 	case 2:
-		doc.Meta = j.Meta{"s": "str", "n": 1.5, "t": true}
+		doc.Meta = j.Meta{"s": "str", "n": 1.5, "t": true, "big": uint64(math.MaxUint64), "maxint": int64(math.MaxInt64), "huge": 1e300, "neg": -1e19, "whole": 3.0}
 	case 3:
 		doc.Meta = j.Meta{"nested": map[string]any{"a": []any{1.0, "two", nil}, "z": nil}, "esc<>&\"\\ ": "v\x00"}
 	}
